@@ -132,4 +132,26 @@ PROPS = {
         "trusted_base": ["gimli 0.26 read/write"],
         "assumptions": ["well-formed DWARF only (the property says so)"],
     },
+    "C04": {
+        "claim": "The whole-module round trip is an executable Lean model (roundTripModule: ids for every index space, type de-duplication and sorting, imports in order, size-sorted function order, constant expressions, exports, start, element/data segments with wasm-encoder's flag selection, the data-count rule, names) that must predict walrus's decoded output exactly, section by section. Lean theorems (Props/C04): the model's output preserves imports (module, field, kind, full type, order), tables, memories, global types, export names/kinds/order, segment count, order, mode and payload for every input; function-typed references are renamed by one injective map. Oracle independent of the model: non-code sections of input and output decoded with wasmparser and compared under the renaming read off the binaries.",
+        "level_note": "Trusted: Lean kernel; hand model of the parse_*/Emit impls of every section (sampled against the code each run); wasmparser decoding; wasm-encoder's segment flag choice is modelled.",
+        "technique": "Lean 4 structural-preservation theorems over the module round-trip model + exact-prediction correspondence + independent structural oracle",
+        "lean_modules": ["Walrus.Props.C04"],
+        "suites": [{"name": "module"}],
+        "rule": "generated valid modules (MVP / full / random feature mix): every entity kind x {imported, local} x 32/64-bit x shared, all element-segment encodings wasm-encoder can write, active/passive data segments on several memories, const-expr forms (constants, global.get of imported globals, ref.null, ref.func), start, duplicate types, name sections on every second module; all functions exported for tracking. Non-trivial: module with at least one import or segment; distinct by request",
+        "strength": "model exact on all sections; theorems cover the preserved components listed in the claim",
+        "trusted_base": ["the __f<i> exports are used by the oracle to follow functions (relies on export retargeting being right, which the same oracle checks against the model)"],
+        "assumptions": [],
+    },
+    "C13": {
+        "claim": "The name-section part of the whole-module Lean model (parse of every name subsection through the parse-time index maps, emission through the emit-time maps and the per-function local map, sorting by index, merged types keep one name) must predict the decoded output name section exactly. Lean theorems (Props/C13): output function/table/memory/global/element/data names are exactly the input names moved by the renaming (no name is attached to another entity); local names follow the local map of emit_locals. Oracle independent of the model: output names vs input names under the renaming reconstructed from the binaries, with the tolerances the property states (unused locals, merged types).",
+        "level_note": "Trusted: as C04; wasmparser's name-section reader; wasm-encoder's name-section writer.",
+        "technique": "Lean 4 theorems over the names part of the module model + exact-prediction correspondence + independent names oracle",
+        "lean_modules": ["Walrus.Props.C13"],
+        "suites": [{"name": "module"}],
+        "rule": "as C04; name sections with every subsection independently present, names on a random half of the entities, on parameters and on used and unused locals, on duplicate types. Non-trivial: as C04; distinct by request",
+        "strength": "model exact; theorems for the index-renamed subsections; local names by correspondence + oracle",
+        "trusted_base": [],
+        "assumptions": ["label/field/tag subsections and names of unused locals may be dropped (stated in the property)"],
+    },
 }
